@@ -50,6 +50,7 @@ class LoopSpec:
     def __init__(self, inv=None, unroll=None, variant=None, tags=None, extra_havoc=(), hints=None):
         self.inv, self.unroll, self.variant, self.tags, self.extra_havoc = inv, unroll, variant, tags, extra_havoc
         self.hints = hints      # proof hints: each is proved (given the earlier ones), then assumed
+        self.split = None       # optional case split of the step obligations: fn(cx_end, cx_begin) -> [(label, cond)]
 
 
 class Ctx:
@@ -639,6 +640,14 @@ class Exec:
                 return IntV(z3.If(v.t != 0, I(1), I(0)), tgt)
             if src.lo >= tgt.lo and src.hi <= tgt.hi:
                 return IntV(v.t, tgt)
+            if src.bits == tgt.bits and src.bits > 1:
+                m_ = 1 << tgt.bits
+                sv = z3.simplify(v.t)
+                if not z3.is_int_value(sv):
+                    # same width: one conditional correction, no modulo
+                    if tgt.signed:
+                        return IntV(z3.If(v.t > tgt.hi, v.t - m_, v.t), tgt)
+                    return IntV(z3.If(v.t < 0, v.t + m_, v.t), tgt)
             return IntV(self.wrap(v.t, tgt), tgt)
         if ck == 'IntegralToBoolean':
             return BoolV(v.t != 0)
@@ -848,7 +857,7 @@ class Exec:
             if op == '-':
                 return RealV(x - y, rct)
             if op == '*':
-                return RealV(x * y, rct)
+                return RealV(self.fmul(x, y), rct)
             if op == '/':
                 return RealV(x / y, rct)
             raise ExtractionError(f'float op {op}')
@@ -857,6 +866,15 @@ class Exec:
         if op in ('<<', '>>', '&', '|', '^'):
             return models.bitop(self, st, op, va, vb, rct)
         raise ExtractionError(f'binary operator {op}')
+
+    uf_mul = False
+
+    def fmul(self, x, y):
+        """real product; with uf_mul the product of two non-constant terms is an uninterpreted
+        (hence more general) function, for units whose obligations only need congruence"""
+        if self.uf_mul and not z3.is_rational_value(z3.simplify(x)) and not z3.is_rational_value(z3.simplify(y)):
+            return models.FMUL(x, y)
+        return x * y
 
     def ptrcmp(self, op, a, b):
         if op not in ('==', '!='):
@@ -1516,8 +1534,16 @@ class Exec:
                 for (lab, f) in spec.hints(cx2, cxb):
                     self.oblig(s2, f'hint.{key}.{lab}', f, 'hint', tags)
                     s2.assume(f)
+            cases = [('', None)]
+            if spec.split:
+                cases = spec.split(cx2, Ctx(self, b0, self.entry, self.args0, None))
+                self.oblig(s2, f'inv.{key}.split-exhaustive', z3.Or(*[c for _, c in cases]), 'hint', tags)
             for (lab, f) in spec.inv(cx2):
-                self.oblig(s2, f'inv.{key}.step.{lab}', f, 'invariant-step', tags)
+                for cl, cc in cases:
+                    if cc is None:
+                        self.oblig(s2, f'inv.{key}.step.{lab}', f, 'invariant-step', tags)
+                    else:
+                        self.oblig(s2, f'inv.{key}.step.{lab}.{cl}', z3.Implies(cc, f), 'invariant-step', tags)
             if vt0 is not None:
                 vt1 = spec.variant(cx2)
                 self.oblig(s2, f'decreases.{key}', z3.And(vt0 >= 0, vt1 < vt0), 'decreases', tags)
